@@ -73,6 +73,13 @@ func (c *Conn) Read(b []byte) (int, error) {
 // connection latency and throttling read throughput based on desired bandwidth
 // constraints.
 func (c *Conn) ReadFrom(r io.Reader) (int64, error) {
+	if c.Context != nil && c.Context.Shaping {
+		// These bytes belong to a response that is being shaped. They have to go through
+		// Write, which tracks the byte offset and applies throttles, halts and closes; a
+		// bufio.Writer hands everything after its first flush to ReadFrom.
+		return io.Copy(struct{ io.Writer }{c}, r)
+	}
+
 	c.ronce.Do(c.sleepLatency)
 
 	var total int64
